@@ -368,6 +368,41 @@ def handleCompose (st : St) (idw partsEnc det implW implPs : String) : Verdict :
       detail := if oracle.1 == "VIOL" || (inScope && indep && modelW != modelU) then s!"{oracle.2}|model whole={fmtLocs modelW} model union={fmtLocs modelU}" else oracle.2 }
   | _, _ => { kind := "COMPOSE", group := det, agree := "E", detail := "unknown file or detector" }
 
+/-- C19 on the lines the entry points report: whole file = union over the items -/
+def handleComposeLines (st : St) (idw partsEnc cat variant implW implPs : String) : Verdict :=
+  let partIds : List (Nat × String) := (partsEnc.splitOn ",").filterMap fun kv =>
+    match kv.splitOn "=" with
+    | i :: rest => (i.toNat?).map (·, "=".intercalate rest)
+    | _ => none
+  match lookup st.files idw, (dispatchOf cat variant).bind (fun det => (detectorByName det).map (det, ·)) with
+  | some fw, some (det, d) =>
+    let wholeParts := sourceUnitParts fw.tree
+    let partFiles := partIds.filterMap fun (i, id) => (lookup st.files id).map (i, ·)
+    if partFiles.length != partIds.length then { kind := "COMPOSELINES", group := det, agree := "E", detail := "part file not registered" } else
+    let linesOf (f : FileRec) : List Nat := lineSet ((d f.tree).map fun l => lineOf f.src l.start)
+    let modelW := linesOf fw
+    let modelU := lineSet (partFiles.flatMap fun (_, pf) => linesOf pf)
+    let inScope := det != "safe_math_pre_080_optimization" && det != "safe_math_post_080_optimization"
+    let indep := !contextDependent.contains det || (itemsIndependent wholeParts && stateNamesUnique fw.tree)
+    let parseLines (t : String) : Option (List Nat) :=
+      if t == "PANIC" then none else some (((t.splitOn ";").filter (· != "")).filterMap String.toNat?)
+    let implParts := (implPs.splitOn "|").map parseLines
+    let oracle : String × String :=
+      match parseLines implW, implParts.all Option.isSome with
+      | some w, true =>
+        if !inScope then ("na", "SafeMath detectors are file-wide by design")
+        else if !indep then ("na", "items mention each other's state variables")
+        else if det == "increment_decrement_optimization" && !incDecLocsDistinct fw.tree then ("na", "hypothesis IncDecLocsDistinct fails")
+        else
+          let u := canonNats (implParts.filterMap id).flatten
+          if canonNats w == u then ("ok", "") else ("VIOL", s!"lines of the whole file={fmtNats (canonNats w)} union over its items={fmtNats u}")
+      | _, _ => ("VIOL", "panic")
+    { kind := "COMPOSELINES", group := det,
+      agree := if !inScope || !indep then "na" else if modelW == modelU then "A" else "D",
+      oracle := oracle.1,
+      detail := if oracle.1 == "VIOL" || (inScope && indep && modelW != modelU) then s!"{oracle.2}|model whole={fmtNats modelW} model union={fmtNats modelU}" else oracle.2 }
+  | _, _ => { kind := "COMPOSELINES", group := variant, agree := "E", detail := "unknown file or variant" }
+
 /-- all locations of a tree (the proof-side definition) -/
 def locsOfTree (t : T) : List Loc := locsOf t
 
@@ -410,6 +445,26 @@ def handleRelay (st : St) (id1 id2 det impl1 impl2 : String) : Verdict :=
     { kind := "RELAY", group := det, agree := if m1 == m2 then "A" else "D", oracle := oracle.1,
       detail := if m1 == m2 && oracle.1 != "VIOL" then "" else s!"{oracle.2}|model relocated={fmtLocs m1} model after={fmtLocs m2}" }
   | _, _, _, _ => { kind := "RELAY", group := det, agree := "E", detail := "missing file, detector or token map" }
+
+/-- two spacings of the same `pragma solidity` constraint list (value at byte `pos`, lengths `la` / `lb`), the rest of
+the file byte-identical: the same constructs are flagged, offsets behind the value shifted by the difference -/
+def handlePragmaSp (st : St) (id1 id2 det impl1 impl2 : String) (pos la lb : Nat) : Verdict :=
+  match lookup st.files id1, lookup st.files id2, detectorByName det with
+  | some f1, some f2, some d =>
+    let sh (x : Nat) : Nat := if x ≥ pos + la then x - la + lb else x
+    let ρ : Loc → Loc := fun l => ⟨l.fileNo, sh l.start, sh l.stop⟩
+    let m1 := canonLocs ((d f1.tree).map ρ)
+    let m2 := canonLocs (d f2.tree)
+    let oracle : String × String :=
+      match parseLocs impl1, parseLocs impl2 with
+      | some a, some b =>
+        let a' := canonLocs (a.map fun (s, e) => ρ ⟨0, s, e⟩)
+        let b' := canonLocs (b.map fun (s, e) => ⟨0, s, e⟩)
+        if a' == b' then ("ok", "") else ("VIOL", s!"flagged with one spacing of the pragma (shifted)={fmtLocs a'} with the other={fmtLocs b'}")
+      | _, _ => ("VIOL", "panic")
+    { kind := "PRAGMASP", group := det, agree := if m1 == m2 then "A" else "D", oracle := oracle.1,
+      detail := if m1 == m2 && oracle.1 != "VIOL" then "" else s!"{oracle.2}|model shifted={fmtLocs m1} model other={fmtLocs m2}" }
+  | _, _, _ => { kind := "PRAGMASP", group := det, agree := "E", detail := "missing file or detector" }
 
 def handleStrLit (st : St) (id1 id3 det impl1 impl3 : String) : Verdict :=
   match lookup st.files id1, lookup st.files id3, detectorByName det with
@@ -454,8 +509,11 @@ def step (st : St) (line : String) : St × Option Verdict :=
   | ["LINES", fid, cat, variant, _fileNo, impl] => (st, some (handleLines st fid cat variant impl))
   | ["TOKMAP", id1, id2, enc] => handleTokMap st id1 id2 enc
   | ["RELAY", id1, id2, det, impl1, impl2] => (st, some (handleRelay st id1 id2 det impl1 impl2))
+  | ["PRAGMASP", id1, id2, det, impl1, impl2, pos, la, lb] =>
+    (st, some (handlePragmaSp st id1 id2 det impl1 impl2 (pos.toNat?.getD 0) (la.toNat?.getD 0) (lb.toNat?.getD 0)))
   | ["STRLIT", id1, id3, det, impl1, impl3] => (st, some (handleStrLit st id1 id3 det impl1 impl3))
   | ["COMPOSE", idw, partsEnc, det, implW, implPs] => (st, some (handleCompose st idw partsEnc det implW implPs))
+  | ["COMPOSELINES", idw, partsEnc, cat, variant, implW, implPs] => (st, some (handleComposeLines st idw partsEnc cat variant implW implPs))
   | ["RESOLVE", cliPath, tomlEnc, ce, implExit, implReport] => (st, some (handleResolve cliPath tomlEnc ce implExit implReport))
   | ["RENDER", cat, enc, implHex, same] => (st, some (handleRender cat enc implHex same))
   | ["FULLREPORT", v, o, q, implHex] => (st, some (handleFull v o q implHex))
